@@ -13,6 +13,7 @@ SELS = [
     (["D", "gen", "g"], "a"), (["D", "gen"], "x"), (["gen"], "x"), (["gen2"], "i"), (["D"], "d"),
     (["D", "gen2", "g"], "a"), (["D"], "r"),
 ]
+YIELD_FROM_SELS = [(["gen3", "g"], "a"), (["gen3", "gen2", "g"], "a"), (["gen3"], "z"), (["gen3", "gen2"], "i")]
 
 
 def mk_sel(chain, focus):
@@ -24,14 +25,15 @@ def gen(rng, tier, quarantine=()):
     ops = []
     nprobes = rng.choice([1, 2, 2, 3])
     kinds = {}
+    yf = "no-yield-from" not in quarantine and rng.random() < 0.3
     for i in range(nprobes):
-        chain, focus = rng.choice(SELS)
+        chain, focus = rng.choice(SELS + (YIELD_FROM_SELS * 2 if yf else []))
         pid = f"p{i}"
         kinds[pid] = rng.choice(["probe", "probe", "overlay"])
         ops.append({"op": "mk", "id": pid, "kind": kinds[pid], "sels": [mk_sel(chain, focus)],
                     "inv": "C09.no_foreign_events"})
     if "overlay" in kinds.values():
-        for f in ("g", "gen", "gen2", "D"):
+        for f in ("g", "gen", "gen2", "gen3", "D"):
             ops.insert(0, {"op": "tool", "fn": f, "how": "inplace"})
     pending = list(kinds)
     live = []
@@ -60,8 +62,8 @@ def gen(rng, tier, quarantine=()):
         elif r < 0.40 and len(gens) < 2:
             gname = f"g{ng}"
             ng += 1
-            ops.append({"op": "gen_new", "gen": gname, "fn": rng.choice(["gen", "gen2"]), "nargs": 1,
-                        "cycle": rng.random() < 0.25})
+            ops.append({"op": "gen_new", "gen": gname, "fn": rng.choice(["gen", "gen2"] + (["gen3"] * 3 if yf else [])),
+                        "nargs": 1, "cycle": rng.random() < 0.25})
             gens.append(gname)
         elif r < 0.62 and gens:
             ops.append({"op": "gen_next", "gen": rng.choice(gens),
